@@ -7,6 +7,10 @@ SEEDED = "/verif/seeded"
 
 # seeded change -> what happened the first time and what was strengthened
 HISTORY = {
+    "C03-16": "missed at first (no datagram repeated one option number more than a few dozen times): `large-datagrams` (C02/C03) now repeats one number 254..70000 times and C01 got `repeated-option-values` (254..5000 values through add_option)",
+    "C08-17": "missed at first (traffic on other keys between two blocks was plain and on unrelated paths): the in-between traffic now also runs complete block-wise downloads on seven look-alike keys (other endpoint, other method, empty segment in front / behind, segments joined, longer, shorter)",
+    "C10-17": "missed at first (upload requests never carried a Block2 preference): a quarter of the random uploads now send Block2 with every block and get a large reply, whose block size is bound by that preference",
+    "C14-16": "missed at first (no path segment longer than 40 bytes): the wide path alphabet has segments of 255 and 256 bytes that differ in the last byte",
     "C05-10": "missed by C05 at first (the second number -> name table behind CoapResponse::get_status was only exercised by C19): C05 now enumerates all 256 code bytes through get_method / get_status, directly and from the wire (`all-code-getter-numbers`)",
     "C02-11": "first seen by the thorough tier only (the changed line exists only with the `udp` feature): the quick tier of C01-C04 now also runs the `std,udp` feature set",
     "C02-10": "caught by one part only at first: C02/C03 got a `large-datagrams` part (payloads and option sections around 1280, 64000 and 65536 bytes, up to 200 kB)",
